@@ -673,7 +673,9 @@ func (vc *FnVC) builtin(in *ssa.Call, b *ssa.Builtin) {
 		m := vc.val(args[0])
 		k := vc.val(args[1])
 		mt := args[0].Type().Underlying().(*types.Map)
-		_, _, hC, hS := vc.mapComps(mt.Key(), mt.Elem())
+		vC, _, hC, hS := vc.mapComps(mt.Key(), mt.Elem())
+		// removing a key is a write to the map, like an update
+		vc.checkWrite(vC, m.S, "", "map "+vc.valueText(args[0])+" (delete)", in.Pos())
 		hh := vc.heapGet(hC, hS)
 		vc.heapSet(hC, hS, fmt.Sprintf("(store %s %s (store (select %s %s) %s false))", hh, m.S, hh, m.S, k.S))
 	case "print", "println":
@@ -1024,6 +1026,8 @@ func (vc *FnVC) havocCall(in *ssa.Call, name string) {
 			args = append(args, mc.Bindings...)
 		}
 	}
+	saved := vc.savePrivateAllocs()
+	defer vc.restorePrivateAllocs(saved)
 	if vc.prog != nil && vc.prog.isReadonlyArgs(name) {
 		vc.havocked[name+" [non-receiver arguments read-only by directive]"] = true
 		delete(vc.havocked, name)
